@@ -69,6 +69,16 @@ def decl_specs(tier):
                 else:
                     P = K
                 specs.append({'P': P, 'tag': '%s.%s(%s,%s) wrapper=%s' % (ename, m, sp, ref, w), 'sig': '%s %s ref=%s target=%s' % (m, ename, ref, sp)})
+    # the target is a DESCRIBED field (Auto): parsing places the field by the value found in the data - which need not be what the
+    # computation yields -, serializing by what the attribute reads as
+    for ename, el in (('int', I(1)), ('data', D(C(2)))):
+        for m, ref in (('at', None), ('at', 'begins'), ('shift', None), ('aligned', None), ('aligned', 'innermost-pkt')):
+            k = dict(I(1), desc={'k': 'auto', 'expr': BIN('add', F('h'), C(1))})
+            fields = [('h', I(1)), ('k', k), ('x', pos(el, m, F('k'), 'field', ref)), ('z', I(1))]
+            for w in 'abg':
+                K = PKT('K', fields, **(dict(generate_for_pack=False, generate_for_unpack=False) if w == 'g' else {}))
+                P = PKT('W', [('pre', I(1)), ('body', R(K))]) if w == 'b' else K
+                specs.append({'P': P, 'tag': '%s.%s(described field,%s) wrapper=%s' % (ename, m, ref, w), 'sig': '%s %s ref=%s target=described field' % (m, ename, ref)})
     # class-wide align and per-element alignment
     for al in (2, 3, 4, 6):
         for names in (['i1', 'i1'], ['i1', 'dn'], ['i1', 'sn'], ['i1', 'sr'], ['dn', 'r1'], ['i1', 'em'], ['m0', 'i2'], ['i1', 'o1'], ['i1', 'su'], ['i1', 'rs']):
